@@ -52,6 +52,7 @@ var legacySets = [][]srv.Legacy{
 	{{Key: universe[0], Port: 9005}, {Key: universe[1], Port: 9005}},
 	{{Key: universe[2], Port: 9005}, {Key: universe[0], Port: 9005}},
 	{{Key: universe[0], Port: 9005}, {Key: universe[1], Port: 9006}},
+	{{Key: universe[0], Port: 9005}, {Key: universe[1], Port: 9006}, {Key: universe[3], Port: 9005}}, // ports interleaved
 }
 
 func disjoint(a, b []srv.Ln) bool {
@@ -120,6 +121,42 @@ func Matrix(w *srv.World, c srv.Cfg, seedBase uint64, add func(sig, msg string))
 			}
 		}
 	}
+	// usage history: client P uses key X, client Q uses key Y, then P comes back with X (the
+	// most-recently-used / last-client-IP optimisation must not hide a configured key)
+	for _, l := range c.Listeners() {
+		var distinct []srv.Key
+		for _, k := range l.Keys {
+			dup := false
+			for _, d := range distinct {
+				if d.Cipher == k.Cipher && d.Secret == k.Secret {
+					dup = true
+				}
+			}
+			if !dup {
+				distinct = append(distinct, k)
+			}
+		}
+		if len(distinct) < 2 {
+			continue
+		}
+		x, y := distinct[0], distinct[1]
+		steps := []struct {
+			k    srv.Key
+			from string
+		}{{x, "203.0.113.201"}, {y, "203.0.113.202"}, {x, "203.0.113.201"}, {y, "203.0.113.201"}, {x, "203.0.113.202"}}
+		for si, st := range steps {
+			var r srv.ProbeResult
+			if l.Type == "tcp" {
+				r = w.ProbeTCPFrom(l, st.k, seedBase+9000+uint64(si), st.from)
+			} else {
+				r = w.ProbeUDPFrom(l, st.k, seedBase+9000+uint64(si), st.from)
+			}
+			if !r.Authed || !r.Served {
+				add("configured-key-rejected-after-usage{"+l.Type+"}", fmt.Sprintf("listener %s %s: after clients %v used keys in turn, key %s from %s was not served (step %d, status %s)", l.Type, l.Addr, []string{"P:X", "Q:Y", "P:X", "P:Y", "Q:X"}, st.k.ID, st.from, si, r.Status))
+				break
+			}
+		}
+	}
 	return obs
 }
 
@@ -174,6 +211,12 @@ func keyListConfigs() []srv.Cfg {
 		}
 		out = append(out, srv.Cfg{Legacy: lg})
 	}
+	// legacy format with several ports, grouped and interleaved
+	out = append(out,
+		srv.Cfg{Legacy: []srv.Legacy{{Key: universe[0], Port: 9005}, {Key: universe[1], Port: 9006}}},
+		srv.Cfg{Legacy: []srv.Legacy{{Key: universe[0], Port: 9005}, {Key: universe[1], Port: 9006}, {Key: universe[3], Port: 9005}, {Key: universe[4], Port: 9006}}},
+		srv.Cfg{Legacy: []srv.Legacy{{Key: universe[3], Port: 9007}, {Key: universe[0], Port: 9005}, {Key: universe[2], Port: 9007}}},
+	)
 	// many keys: the universe keys spread among 40 fillers
 	var many []srv.Key
 	for i := 0; i < 40; i++ {
